@@ -231,6 +231,11 @@ def nozzle_rest(check, proj):
 
 
 def body(check):
+    from ..disc1d import over_cond_paths
+    over_cond_paths(check, _body_paths)
+
+
+def _body_paths(check):
     proj = check.proj
     check.explanation = ("static analysis: the chain constant data => zero gradients (periodic and one-sided closures) => every "
                          "reconstruction returns the cell value => consistent fluxes equal at all faces => zero residual is decided "
